@@ -27,6 +27,23 @@ type lineLimitReader struct {
 	// limit has been lifted in the meantime.
 	tooLong bool
 	held    []byte
+
+	// midLine tells whether the octets handed out so far end in the middle
+	// of a line.
+	midLine bool
+}
+
+// cutShort reports whether the octets handed out so far end with the
+// beginning of a line that was found to be too long. A buffered reader on top
+// returns that beginning as if it were a line when it gets ErrTooLongLine.
+func (r *lineLimitReader) cutShort() bool {
+	return r.tooLong && r.midLine
+}
+
+func (r *lineLimitReader) handedOut(b []byte) {
+	if len(b) > 0 {
+		r.midLine = b[len(b)-1] != '\n'
+	}
 }
 
 // setLimit changes the limit. The limit is lifted and restored between two
@@ -42,9 +59,12 @@ func (r *lineLimitReader) Read(b []byte) (int, error) {
 		if len(r.held) > 0 {
 			n := copy(b, r.held)
 			r.held = r.held[n:]
+			r.handedOut(b[:n])
 			return n, nil
 		}
-		return r.R.Read(b)
+		n, err := r.R.Read(b)
+		r.handedOut(b[:n])
+		return n, err
 	}
 
 	if r.tooLong || r.curLineLength > r.LineLimit {
@@ -77,9 +97,11 @@ func (r *lineLimitReader) Read(b []byte) (int, error) {
 			if keep == 0 {
 				return 0, ErrTooLongLine
 			}
+			r.handedOut(b[:keep])
 			return keep, nil
 		}
 	}
 
+	r.handedOut(b[:n])
 	return n, nil
 }
